@@ -158,3 +158,24 @@ def load(reg):
                  ensures=["self._stream == %s" % NEWS,
                           "implies(self._k >= 10, %s)" % coherent("self._dist_gamma"), "implies(self._k < 10, self._dist_gamma is None)"],
                  modifies=["self._stream", "self._dist_gamma"], props=C14)
+
+
+def load_setter(reg):
+    """The public way to re-point a distribution: the ``stream`` property setter."""
+    C14 = ["C14"]
+    NEWS = "asref(stream, 'StreamInterface')"
+    plain = ["DistBernoulli", "DistExponential", "DistGamma", "DistUniform", "DistWeibull", "DistTriangular", "DistPoisson"]
+    reg.contract("Distribution.stream@setter", params={"stream": "obj"},
+                 raises=[("TypeError", "not instance(stream, 'StreamInterface')")],
+                 ensures=["self._stream == %s" % NEWS,
+                          # a cached second gaussian computed from the old stream must not survive the assignment
+                          "implies(instance(self, 'DistNormal'), not asref(self, 'DistNormal')._have_saved_gaussian)"],
+                 modifies=["self.*"], for_classes=plain + ["DistNormal", "DistLogNormal"], props=C14)
+
+
+_load_d0 = load
+
+
+def load(reg):      # noqa: F811
+    _load_d0(reg)
+    load_setter(reg)
